@@ -113,7 +113,10 @@ class SocketShim:
 
 class Loop:
     def __init__(self, seed=0, opts=None):
-        self.w = wd.World(seed=seed, opts=dict({'dpd': 3600, 'lifetime': 7200}, **(opts or {})))
+        o = dict({'dpd': 3600, 'lifetime': 7200}, **(opts or {}))
+        # the daemon (A) is also configured for a third peer C that never answers: an ACQUIRE for it leaves a half-open initiator IKE_SA behind
+        conf = {'A': {'A-B': wd.connection_dict('A', 'B', o), 'A-C': wd.connection_dict('A', 'C', o, index=7)}, 'B': {'B-A': wd.connection_dict('B', 'A', o)}}
+        self.w = wd.World(conf=conf, seed=seed, opts=o)
         self.udp, self.tcp, self.xfrm_sock = [], None, FakeXfrm(self)
         self.pending = None
         self.sent = []               # (data, dst) the daemon transmitted
@@ -150,7 +153,12 @@ class Loop:
                 raise Stop()
             ev = self.script[self.pos]
             if ev['type'] == 'lazy':          # concrete bytes depend on the state of the session: built when reached
-                ev = self.script[self.pos] = hostile_event(ev['kind'], self, self.rnd)
+                ev = hostile_event(ev['kind'], self, self.rnd)
+                if isinstance(ev, list):      # a hostile kind that needs a preparing event: both are handled by the loop, one after the other
+                    self.script[self.pos:self.pos + 1] = ev
+                    ev = self.script[self.pos]
+                else:
+                    self.script[self.pos] = ev
             self.pos += 1
             self.current = ev.get('name', ev['type'])
             t = ev['type']
@@ -301,6 +309,24 @@ def hostile_event(kind, loop, rnd):
         d = bytearray(base)
         d[-1] ^= 1
         return udp(bytes(d))
+    if kind in ('wrong_spi_sealed', 'wrong_spi_clear'):
+        # addressed to an existing IKE_SA by the daemon's own SPI, but with another peer SPI; once genuinely protected by the peer's keys, once in the clear
+        if sa_b is None:
+            return udp(W.enc_header(b'\x5a' * 8, known[1], 0, 2, 0, 37, 0x08, 1, 28))
+        peer_a = probes.peer_sa_of(w, sa_b)
+        mid = peer_a.peer_msg_id if peer_a else sa_b.my_msg_id
+        if kind == 'wrong_spi_clear':
+            return udp(W.enc_header(b'\x5a' * 8, sa_b.spi_r, 0, 2, 0, rnd.choice((35, 36, 37)), 0x08, mid, 28))
+        return udp(probes.seal(sa_b, 37, False, mid, [], spi_i=b'\x5a' * 8))
+    if kind == 'acquire_silent_peer':
+        return {'type': 'xfrm', 'name': kind, 'data': fakekernel.enc_acquire(wd.addr_of('A'), wd.addr_of('C'), wd.addr_of('A'), wd.addr_of('C'), 0, 80, 6, (7 << 3) | 1)}
+    if kind == 'half_open_wrong_spi':
+        # a half-open initiator IKE_SA (towards the silent peer) has no keys yet and expects SPIr = 0: anybody can address it with any other SPIr
+        half = next((x for x in w.sas('A') if x.is_initiator and x.my_crypto is None), None)
+        if half is None:
+            return [hostile_event('acquire_silent_peer', loop, rnd), {'type': 'lazy', 'kind': 'half_open_wrong_spi'}]
+        x = rnd.choice((35, 36, 37))
+        return udp(W.enc_header(half.my_spi, b'\x5b' * 8, 0, 2, 0, x, 0x20, 0 if x != 36 else 1, 28), src=wd.addr_of('C'))
     if kind == 'loop_payload':
         return udp(W.enc_header(b'\x74' * 8, b'\0' * 8, 37, 2, 0, 34, 0x08, 0, 32) + struct.pack('>BBH', 37, 0, 0))
     if kind == 'delete_many':
@@ -328,7 +354,7 @@ def hostile_event(kind, loop, rnd):
 
 KINDS = ('short', 'garbage', 'unconfigured_src', 'init_existing_spi', 'unknown_exchange', 'unknown_spi', 'binary_vendor', 'auth_malformed', 'bad_checksum',
          'loop_payload', 'delete_many', 'acquire_unconfigured', 'acquire_unknown_index', 'expire_unknown_spi', 'netlink_truncated', 'netlink_unknown_type',
-         'control', 'send_gaierror', 'send_oserror', 'tick')
+         'control', 'send_gaierror', 'send_oserror', 'tick', 'wrong_spi_sealed', 'wrong_spi_clear', 'acquire_silent_peer', 'half_open_wrong_spi')
 
 
 class Lazy(dict):
